@@ -234,8 +234,8 @@ impl Scenario for Chunk {
         if !plan.ops.is_empty() {
             // scripted history (events and raw reads through stream()): same script on
             // the slice reader and on the streamed reader
-            let reference = run_ops_on(plan, &shared, &slice_st);
-            let got = run_ops_on(plan, &shared, &plan.stream);
+            let reference = run_ops_on(plan, &shared, &slice_st, false);
+            let got = run_ops_on(plan, &shared, &plan.stream, false);
             st.executions += 2;
             count_faults(&got, st);
             st.bump(&format!("source.{}", plan.stream.kind.name()));
@@ -358,7 +358,7 @@ impl Scenario for Soup {
             let calls = p.stream.cuts.len() as u32 * 2 + 6;
             p.stream.faults.push(FaultAt { call: rng.below(calls as usize) as u32, fault: Fault::Eintr(rng.range(1, 3) as u8) });
             if rng.chance(1, 3) {
-                p.stream.faults.push(FaultAt { call: rng.below(calls as usize) as u32, fault: Fault::Err(rng.below(5) as u8) });
+                p.stream.faults.push(FaultAt { call: rng.below(calls as usize) as u32, fault: Fault::Err(rng.below(10) as u8) });
             }
             p.stream.faults.sort_by_key(|f| f.call);
         }
@@ -414,10 +414,12 @@ impl Scenario for Soup {
 /// caller script of reads, skips, read_text and configuration flips on arbitrary
 /// input; only the C03 monitors apply
 fn run_ops_monitored(plan: &Plan, shared: &Rc<Vec<u8>>) -> RunRec {
-    run_ops_on(plan, shared, &plan.stream)
+    run_ops_on(plan, shared, &plan.stream, false)
 }
 
-fn run_ops_on(plan: &Plan, shared: &Rc<Vec<u8>>, st: &Stream) -> RunRec {
+/// run the plan's call history over stream `st`; with `stop_on_io` the caller gives up at
+/// the first I/O error (fault histories: what comes after it is not compared)
+pub fn run_ops_on(plan: &Plan, shared: &Rc<Vec<u8>>, st: &Stream, stop_on_io: bool) -> RunRec {
     use crate::core::guard;
     use crate::rd::{Out, Rd, Step};
     use crate::source::new_log;
@@ -505,7 +507,7 @@ fn run_ops_on(plan: &Plan, shared: &Rc<Vec<u8>>, st: &Stream) -> RunRec {
             if out.is_err() && epos > pos {
                 monitor.push(("error-position-beyond-position".into(), format!("op {} ({:?}): error_position {} > buffer_position {}", i, op, epos, pos)));
             }
-            let stop = has_raw && (out.is_err() || out.is_eof());
+            let stop = (has_raw && (out.is_err() || out.is_eof())) || (stop_on_io && matches!(out, Out::Err { class: crate::rd::ErrClass::Io { .. }, .. }));
             steps.push(Step { out, pos, epos, enc: rd.encoding_name() });
             if stop {
                 // how much of the source a failed or finished reader has consumed is not
